@@ -1509,7 +1509,7 @@ const EXTRA_FIELD_MAPPING: [u16; 49] = [
 
 // Verification hook (guard: cfg(kani), set only by `cargo kani`); harness code lives outside the repository.
 #[cfg(kani)]
-mod verif_h {
+pub(crate) mod verif_h {
     #[allow(unused_imports)]
     use super::*;
     include!(concat!(env!("ZIP_VERIF_HARNESS_DIR"), "/h_write.rs"));
